@@ -464,6 +464,69 @@ func runC11(ctx *Ctx, c c11Case) {
 	}
 }
 
+// a lineage with two taggers (a tagged file's descendant receives a further tag): the records of the final files
+// are the same whether the workflow ran uninterrupted, was run to a prefix first, or lost its last outputs and was
+// run again
+func taggedResume(ctx *Ctx) {
+	mk := func() *Desc {
+		return &Desc{Name: "c11tags", Max: 2, Nodes: []Node{{Name: "s", Kind: "filesource", Paths: []string{"a.txt", "b.txt"}},
+			{Name: "t1", Kind: "maptotags", Arg: "k1"},
+			{Name: "p1", Kind: "proc", Cmd: "cat {i:in} > {o:out}", Outs: map[string]string{"out": "{i:in}.p1"}},
+			{Name: "t2", Kind: "maptotags", Arg: "k2"},
+			{Name: "p2", Kind: "proc", Cmd: "cat {i:in} > {o:out}", Outs: map[string]string{"out": "{i:in}.p2"}},
+			{Name: "p3", Kind: "proc", Cmd: "cat {i:in} > {o:out}", Outs: map[string]string{"out": "{i:in}.p3"}}},
+			Edges: []Edge{{From: "s.out", To: "t1.in"}, {From: "t1.out", To: "p1.in"}, {From: "p1.out", To: "t2.in"}, {From: "t2.out", To: "p2.in"}, {From: "p2.out", To: "p3.in"}}}
+	}
+	pre := map[string]string{"a.txt": "a\n", "b.txt": "b\n"}
+	finals := []string{"a.txt.p1.p2.p3", "b.txt.p1.p2.p3", "a.txt.p1.p2", "b.txt.p1.p2"}
+	collect := func(dir string) map[string]interface{} {
+		out := map[string]interface{}{}
+		for _, f := range finals {
+			if a, err := readAudit(dir, f); err == nil {
+				out[f] = normAudit(a)
+			} else {
+				out[f] = "ERR " + err.Error()
+			}
+		}
+		return out
+	}
+	ref := RunWorkflow(mk(), RunOpts{Pre: pre})
+	defer os.RemoveAll(ref.Dir)
+	if ref.Exit != 0 {
+		ctx.Res.Disagree(Violation{What: "tagged reference run failed: " + firstLine(ref.Stderr), Witness: "tagged-resume"})
+		return
+	}
+	want := collect(ref.Dir)
+	for _, mode := range []string{"runto", "delete"} {
+		dir := newDir()
+		if mode == "runto" {
+			d1 := mk()
+			d1.RunTo, d1.RunToKind = []string{"p1"}, "name"
+			RunWorkflow(d1, RunOpts{Dir: dir, Pre: pre})
+		} else {
+			RunWorkflow(mk(), RunOpts{Dir: dir, Pre: pre})
+			for _, f := range finals {
+				os.Remove(filepath.Join(dir, f))
+				os.Remove(filepath.Join(dir, f+".audit.json"))
+			}
+		}
+		rr := RunWorkflow(mk(), RunOpts{Dir: dir})
+		ctx.Res.Eval("tagged lineage, "+mode, true, "tagged-resume-"+mode)
+		ctx.Res.Count("mode=tagged-" + mode)
+		if rr.Exit != 0 {
+			ctx.Res.Violate(Violation{What: fmt.Sprintf("resumed tagged run (%s) exited %d: %s", mode, rr.Exit, firstLine(rr.Stderr)), Class: "c11.resume-failed", Witness: "tagged-resume-" + mode})
+		} else if got := collect(dir); !reflect.DeepEqual(got, want) {
+			for _, f := range finals {
+				if !reflect.DeepEqual(got[f], want[f]) {
+					ctx.Res.Violate(Violation{What: fmt.Sprintf("lineage of %s in a tagged workflow after %s + resume differs from the uninterrupted run: %v vs %v", f, mode, got[f], want[f]), Class: "c11.lineage", Witness: "tagged-resume-" + mode})
+					break
+				}
+			}
+		}
+		os.RemoveAll(dir)
+	}
+}
+
 func checkC11(ctx *Ctx) {
 	ctx.Res.Rule = "chain workflows (1-3 inputs, 2-3 levels); the same outputs produced uninterrupted and (a) by RunTo on a prefix followed by Run, (b) by a run killed at the n-th occurrence of one of 20 instrumented points, cleanup and re-run, (c) by a complete run, deletion of the last level's outputs and re-run, (d) by four runs inside one OS process (all; last level deleted and redone; everything deleted and redone; last level deleted and redone); all cases non-trivial; distinct by (chain, mode, point). Checks: audit files of all outputs equal modulo IDs and timestamps between the two ways, records already on disk keep their ID, and each embedded ancestor record is identical to the audit file of that ancestor."
 	r := NewRng(ctx.Seed)
@@ -500,6 +563,7 @@ func checkC11(ctx *Ctx) {
 			runC11(ctx, cases[i])
 		}
 	})
+	taggedResume(ctx)
 }
 
 func init() {
